@@ -10,7 +10,7 @@ let table : (string * ((Model.z list -> Model.z list) * (Model.z list -> Model.z
   ("C18", (Model.run_c18, Model.chk_c18));
   ("C01", (Model.run_pool, Model.chk_c01));
   ("C06", (Model.run_pool, Model.chk_c06));
-  ("C07", (Model.run_pool, Model.chk_c07));
+  ("C07", (Model.run_c07, Model.chk_c07_all));
   ("C04", (Model.run_svc, Model.chk_c04));
   ("C05", (Model.run_svc, Model.chk_c05));
   ("C09", (Model.run_svc, Model.chk_c09));
@@ -26,7 +26,7 @@ let table : (string * ((Model.z list -> Model.z list) * (Model.z list -> Model.z
 let why : (string * (Model.z list -> Model.z list -> Model.z)) list = [
   ("C01", Model.why_pool (Model.Zpos Model.XH));
   ("C06", Model.why_pool (Model.Zpos (Model.XO (Model.XI Model.XH))));
-  ("C07", Model.why_pool (Model.Zpos (Model.XI (Model.XI Model.XH))));
+  ("C07", Model.why_c07);
   ("C04", Model.why_svc (Model.Zpos (Model.XO (Model.XO Model.XH))));
   ("C05", Model.why_svc (Model.Zpos (Model.XI (Model.XO Model.XH))));
   ("C09", Model.why_svc (Model.Zpos (Model.XI (Model.XO (Model.XO Model.XH)))));
